@@ -97,4 +97,55 @@ add("C28", "c_pool",
     note="Same machine as C27; the probe runs with injected cancellations switched off.",
     assumptions=["hook-point granularity"])
 
+
+add("C35", "c_text",
+    [T("TestC35", 100000, 600000)],
+    pre=["TestC35Regression_NestedTrailingSpace", "TestC35Regression_ShrinkPreCodeReorders", "TestC35Known"],
+    rule="1..12 builder operations (Plain, Format with 0..3 formatters, the 24 styling methods, WriteString/Write/WriteRune/WriteByte, Token()..Apply in any order incl. reuse, structured nesting, styling.Perform, builder reuse after Complete, ShrinkPreCode without Pre/Code) over a biased Unicode alphabet (ASCII, BMP, astral, combining marks, ZWJ sequences, every White_Space code point, look-alike non-spaces, 5% invalid bytes). non-trivial = an astral rune before an entity, or trailing white space inside the last entity of a trimmed message, or overlapping/nested entities from different calls; distinct by operation list",
+    technique="model-based PBT (rapid): reference model of formatted byte ranges + UTF-16 lengths via unicode/utf16",
+    text="Each entity must equal its piece's UTF-16 range over the final text, clipped to the text trimmed of trailing white space only when the last formatted piece reaches the end; all entities within the text. Sampled.",
+    note="Trusts pbt/ref/text.go (unicode/utf16, Unicode White_Space).",
+    assumptions=["pieces do not end in a UTF-8 lead byte (two pieces cannot join into one rune)"])
+add("C36", "c_text",
+    [T("TestC36", 50000, 400000), T("TestC36Builder", 50000, 400000)],
+    pre=["TestC36Known"],
+    rule="lists of 0..30 entities of all kinds with offsets/lengths in [0,hi], hi in {1,3,6,4096} (ties frequent) through SortEntities, and Complete outputs of C35's builder generator. non-trivial = >=2 entities with >=2 distinct offsets and >=2 distinct lengths; distinct by list / operation list. Lists containing a pair with both the larger offset and the larger length are the shape of the listed known finding and are excluded by construction (counted)",
+    technique="PBT (rapid): sortedness predicate + multiset preservation",
+    text="Output must be the same multiset ordered by ascending offset, ties by descending length. A listed known finding (Less is not an ordering) is excluded by construction and reported.",
+    note="Known finding C36-less-not-an-ordering is not repairable without editing the repository's own test.")
+add("C37", "c_text",
+    [T("TestC37", 100000, 600000)],
+    pre=["TestC37Regression_NestedTrailingSpace", "TestC37Regression_ShrinkPreCodeReorders", "TestC37Regression_SplitRune", "TestC37Known"],
+    fuzz=[dict(name="FuzzC37", seconds=120)],
+    rule="HTML (with and without Telegram escape) and Markdown inputs: grammar-generated tag soup at three hostility levels (70%), TDLib/Markdown corpus (10%), cross-language soup (10%), random bytes (10%), 0..2 byte mutations incl. markup inside a multi-byte character; optional failing user resolver and pre-filled builder. non-trivial = the parser produced >=1 entity; distinct by input",
+    technique="grammar-based PBT (rapid) + native coverage-guided fuzzing (thorough) with the range oracle inside the target",
+    text="Parse returns an error or Complete() yields entities with offset>=0, length>=0, offset+length <= UTF-16 length of the text; any panic fails. Sampled.",
+    note="The oracle is exactly the property text; it does not check that entities match the markup.")
+add("C38", "c_misc",
+    [T("TestC38", 50000, 500000), T("TestC38Decode", 50000, 500000)],
+    pre=["TestC38Seeds", "TestC38Regression_rle_zero_run", "TestC38Known"],
+    fuzz=[dict(name="FuzzC38", seconds=90)],
+    rule="FileID values built by construction: 18 types, DC in [0,2^31), any int64 ids/hashes, URL variant, all 10 PhotoSizeSource variants with their own fields, file references with forced zero runs (1,2,3,16,200,250..258,511..513,768,1000); and arbitrary strings / mutated ids / hostile RLE streams for DecodeFileID. non-trivial = serialized payload has a zero run >= 2 (round trip) / any input (decode); distinct by value",
+    technique="round-trip PBT (rapid) + native fuzzing of DecodeFileID (thorough)",
+    text="DecodeFileID(EncodeFileID(x)) == x; any string DecodeFileID accepts re-encodes and decodes to the same projection; no panic.",
+    note="Reference RLE / serializer used for classification and diagnostics only.")
+add("C39", "c_misc",
+    [T("TestC39Messages", 20000, 200000), T("TestC39Dialogs", 20000, 200000)],
+    rule="histories of N in 0..60 messages (ids strictly descending with gaps) / dialogs (distinct (date, top id, peer)), page size 1..N+1, exact multiples of the page size forced in ~1/3, response kinds full/slice/channelMessages, Iter/ForEach/Collect, GetHistory/Search; fake server with Telegram offset semantics over TL-encoded responses. non-trivial = N > page size; distinct by history+page+kind",
+    technique="model-based PBT (rapid): iterator output vs. the server's list",
+    text="The yielded sequence equals the history exactly (order, no duplicate, no omission); Next stays false afterwards.",
+    note="Server offset_date semantics of getHistory are not exercised.")
+add("C40", "c_misc",
+    [T("TestC40", 50000, 500000), T("TestC40Arbitrary", 50000, 500000), T("TestC40FloodWait", 20000, 200000, env=BUBBLE), T("TestC40Client", 20000, 200000, env=BUBBLE)],
+    rule="1..5 words [A-Z0-9]*[A-Z][A-Z0-9]* joined by _ with one numeric argument in [0,2^31) at any position (with/without leading zeros), flood/premium/near-miss types forced; arbitrary strings; FloodWait on virtual time with cancel/deadline around the wait; uploader/downloader loops against a fake RPC answering FLOOD_WAIT_n. non-trivial = argument not last or a word containing a digit / a flood error; distinct by message",
+    technique="PBT (rapid) with a constructive oracle (the generator knows type and argument) + virtual-time checks (testing/synctest)",
+    text="Type = words joined, Argument = number; AsFloodWait exactly for the two flood types; FloodWait returns true only after arg seconds plus the margin, ctx error at the instant the context ends; retry loops resume no earlier.",
+    note="")
+add("C42", "c_misc",
+    [T("TestC42", 20000, 200000, env=BUBBLE)],
+    rule="dcs.Plain with a fake dialer: 0..5 candidate addresses, latencies {0,1,2,3,5,10,50 ms} with ties, outcomes success / dial error / handshake-write failure, each honouring or ignoring cancellation (late completion), optional caller cancel; Primary/MediaOnly/CDN, obfuscated or not. non-trivial = n>=2 and (>=2 dials established or one established after the resolver returned); distinct by plan",
+    technique="PBT on virtual time (rapid + testing/synctest) with a resource-accounting oracle",
+    text="After return and quiescence: exactly one of (conn, err); a returned conn is the only established connection still open; on error none is open and, when all failed, the error contains every failure; no resolver goroutine remains.",
+    note="Completion order of equal latencies is the scheduler's; the oracle is order-independent.")
+
 NOT_CLAIMED = {}
